@@ -22,6 +22,8 @@ const (
 	// Hidden behind D2 (8-byte prefixes are refused outright today): parseField converts the length to int
 	// before comparing it with the bytes left, so a prefix >= 2^63 is negative and rest[:datalen] panics.
 	sigD3 = "length-prefix-int-overflow"
+	// parseField reserved reflect.MakeSlice(sliceType, 0, datalen): one ELEMENT per BYTE of a non-byte vector.
+	sigCap = "alloc-amplification-vector-of-structs"
 )
 
 // ---- calling the code under test ------------------------------------------------------------------
@@ -90,9 +92,14 @@ func callUnmarshal(in []byte, ptr any, params string, withParams bool) (r callRe
 // the justified amount is linear in len(input) with a factor proportional to the size of the type. The
 // constants were calibrated on the unchanged tree (largest observed ratio about 0.3 of the bound) - what the
 // bound must catch is allocation driven by a length prefix rather than by bytes actually present.
-func unmarshalBound(d *Desc, inLen int) uint64 {
-	n := uint64(d.nodes())
-	return 16384 + 2048*n + 1024*n*uint64(inLen)
+//
+// Unmarshal (tightened after the capacity = length-in-bytes finding, /repo d7b1792): the bound is no longer
+// len(input) x size-of-type but follows the WORK the reference decoder did on the same input until it stopped:
+// a constant per descriptor node visited plus a small multiple of the Go memory the decoded data needs (vector
+// contents once; sizeof(element) per decoded element, times the growth factor of append). Reserving memory per
+// length prefix, per input byte or per byte of a vector instead of per element breaks it at KB scale.
+func unmarshalBound(d *Desc, fl flags) uint64 {
+	return 16384 + 512*(fl.Visits+uint64(d.nodes())) + 8*fl.GoBytes
 }
 
 func marshalBound(d *Desc, v *Val) uint64 {
@@ -364,18 +371,25 @@ func (ck *checker) decode(tr *Trial, in []byte, want *Val) {
 		v.Failf("panic-unmarshal", "%s: Unmarshal(%s) panicked: %s", ck.where(tr), hx(in), r.pan)
 		return
 	}
-	if b := unmarshalBound(d, len(in)); r.alloc > b {
-		// re-measure: TotalAlloc is process-wide, another goroutine may have allocated meanwhile
+	if b := unmarshalBound(d, fl); r.alloc > b {
+		// re-measure: TotalAlloc is process-wide (another goroutine may have allocated meanwhile), and the first
+		// call on a freshly built type pays one-off reflect cache fills that no input is responsible for
+		ck.class("alloc-remeasured")
 		for i := 0; i < 2 && r.alloc > b; i++ {
 			p2 := reflect.New(ck.typ)
 			r2 := callUnmarshal(append([]byte{}, in...), p2.Interface(), ck.params, true)
 			r.alloc = min(r.alloc, r2.alloc)
 		}
 		if r.alloc > b {
-			v.Failf("alloc-unmarshal", "%s: Unmarshal of %d input bytes allocated %d bytes (bound %d): %s", ck.where(tr), len(in), r.alloc, b, hx(in))
+			sig := "alloc-unmarshal"
+			if fl.CapByLen > 0 && r.alloc >= fl.CapByLen/4 && r.alloc <= b+2*fl.CapByLen {
+				// as much as one element per BYTE of a non-byte vector would take (KNOWN_FINDINGS: fixed d7b1792)
+				sig = sigCap
+			}
+			v.Failf(sig, "%s: Unmarshal of %d input bytes allocated %d bytes (bound %d: %d nodes visited, decoded data needs %d bytes): %s", ck.where(tr), len(in), r.alloc, b, fl.Visits, fl.GoBytes, hx(in))
 		}
 	} else if f := float64(r.alloc) / float64(b); f > debugMaxU {
-		debugMaxU = f
+		debugMaxU = f // (first measurements only: a re-measured call is dominated by noise)
 	}
 	realOK := r.err == nil
 	var got Val
